@@ -29,6 +29,10 @@ Trace == ndJsonDeserialize("trace.ndjson")
 RawViol(E) ==
   (IF IsBad(E) /\ ~E.bad THEN {"C13:bad-frame-not-detected"} ELSE {})
   \cup (IF ~IsBad(E) /\ (E.bad \/ E.othererr) THEN {"C13:valid-frame-rejected"} ELSE {})
+  \* C08 at the parser: a frame whose only zero pixels lie in the edge border is treated exactly like its twin with
+  \* non-zero border values (accepted), so border values never decide whether a frame reaches detector and recording
+  \cup (IF ~IsBad(E) /\ E.bad /\ (\E y \in 1..E.h, x \in 1..E.w : OnEdge(E, y, x) /\ PixOf(E, y, x) = 0)
+        THEN {"C08:border-pixel-rejects-frame"} ELSE {})
   \cup (IF ~IsBad(E) /\ ~E.bad /\ ~E.othererr /\ E.pix # Decoded(E) THEN {"C13:pixels-decoded-wrong"} ELSE {})
   \cup (IF E.fmt = "lepton" /\ ~IsBad(E) /\ ~E.bad /\ ~E.othererr /\
            (E.timeon # Long(E.bytes, 1) \/ E.lastffc # Long(E.bytes, 30) \/ E.framecount # Long(E.bytes, 20)
